@@ -16,7 +16,8 @@ EVIDENCE = dict(
          "unit-dependent range (and a quarter of the others), freshly built and after a file round trip, and in files: the "
          "number found in the CVAL chunk of a written project / synth and the value loaded back, for every no-offset and "
          "negative-minimum controller (an eighth of the others). "
-         "evaluations = (controller, unit, value) triples executed; non-trivial = value differs from the minimum.",
+         "evaluations = (controller, unit, value) triples executed; non-trivial = value differs from the minimum."
+         " Vias meta-padded-slot (file with 27 mappings, two padded slots pointed in place at different targets) and meta-reattached (count lowered and raised again) for negative-minimum and unit-dependent controllers.",
     explanation="finite domain enumerated completely")
 
 
